@@ -65,8 +65,27 @@ pub fn program(r: &mut Rng, with_real: bool) -> (Model, String) {
     let cfg = ModelCfg { max_vars: 3, depth: if r.chance(1, 2) { 2 } else { 3 }, logic: true, piecewise: true, unbounded: false, fractional: false, strict_cmp: false, hostile: false };
     let nv = 1 + r.below(3);
     let ds = discrete_decls(r, nv, with_real);
-    let (m, _) = gen_model::model_with(r, &cfg, ds);
-    let sp = Spelling { aliases: r.chance(1, 2), implicit_mul: r.chance(1, 2), redundant_parens: r.chance(1, 2), named_consts: r.chance(1, 3) };
+    let (mut m, ds) = gen_model::model_with(r, &cfg, ds);
+    // one program in four also asserts a CHAIN of one connective over the Boolean variables, nested to the right or to the
+    // left (the printer leaves out the parentheses the documented associativity makes redundant)
+    let bools: Vec<String> = ds.iter().filter(|d| matches!(d.ty, VariableType::Boolean)).map(|d| d.name.clone()).collect();
+    if !bools.is_empty() && r.chance(1, 4) {
+        use rooc::model_transformer::{Constraint, Exp};
+        let v = |r: &mut Rng| Exp::Variable(r.pick(&bools).clone());
+        let mk = |k: usize, a: Exp, b: Exp| match k { 0 => Exp::Implies(Box::new(a), Box::new(b)), 1 => Exp::Iff(Box::new(a), Box::new(b)), 2 => Exp::Xor(Box::new(a), Box::new(b)),
+            3 => Exp::BinOp(rooc::BinOp::Or, Box::new(a), Box::new(b)), _ => Exp::BinOp(rooc::BinOp::And, Box::new(a), Box::new(b)) };
+        let k = r.below(5);
+        let n = 2 + r.below(2);
+        let mut e = v(r);
+        let right = r.chance(1, 2);
+        for _ in 0..n { let x = if r.chance(1, 4) { Exp::Not(Box::new(v(r))) } else { v(r) }; e = if right { mk(k, x, e) } else { mk(k, e, x) }; }
+        // a second connective around it now and then (precedence between the connectives)
+        if r.chance(1, 3) { let k2 = r.below(5); let x = v(r); e = if r.chance(1, 2) { mk(k2, x, e) } else { mk(k2, e, x) }; }
+        let mut cons = m.constraints().clone();
+        cons.push(Constraint::new_logic_assertion(e, "chain".into()));
+        m = gen_model::build(m.objective().objective_type.clone(), m.objective().rhs.clone(), cons, &ds);
+    }
+    let sp = Spelling { aliases: r.chance(1, 2), implicit_mul: r.chance(1, 2), redundant_parens: r.chance(1, 2), named_consts: r.chance(1, 3), minimal_parens: r.chance(1, 2) };
     let mut pr = r.fork();
     let mut p = Printer { r: &mut pr, sp, consts: vec![] };
     let text = p.program(&m);
@@ -125,7 +144,7 @@ pub fn mixed_program(r: &mut Rng) -> (Model, String) {
     let opt = match r.below(5) { 0 | 1 => OptimizationType::Min, 2 | 3 => OptimizationType::Max, _ => OptimizationType::Satisfy };
     let obj = if matches!(opt, OptimizationType::Satisfy) { Exp::Number(0.0) } else { side(r) };
     let m = gen_model::build(opt, obj, cons, &ds);
-    let sp = Spelling { aliases: r.chance(1, 2), implicit_mul: r.chance(1, 2), redundant_parens: r.chance(1, 2), named_consts: r.chance(1, 3) };
+    let sp = Spelling { aliases: r.chance(1, 2), implicit_mul: r.chance(1, 2), redundant_parens: r.chance(1, 2), named_consts: r.chance(1, 3), minimal_parens: r.chance(1, 2) };
     let mut pr = r.fork();
     let text = Printer { r: &mut pr, sp, consts: vec![] }.program(&m);
     (m, text)
@@ -237,6 +256,10 @@ pub fn generate(seed: u64, n: usize, _thorough: bool, _corpus: Option<&str>) -> 
         // every third round a MIXED program (discrete + bounded Real), judged by the mixed reference
         if i % 3 == 0 { let (m, text) = mixed_program(&mut r); out.push(one(&m, &text, "mixed")); }
     }
+    // a dedicated sub-stream with its OWN generator (independent of how much randomness the streams above consume): chains of
+    // one operator printed without parentheses, see `chain_programs`
+    out.extend(chain_programs(seed, if n >= 2000 { n / 12 } else { 48 }));
+    out.extend(nested_logic_programs(seed, if n >= 2000 { n / 24 } else { 32 }));
     // fixed programs for the arms the random stream rarely reaches: `Linearization(..)` errors, the variable-free branch of
     // `auto_solver` (solved / infeasible), an unbounded model
     for text in [
@@ -255,5 +278,188 @@ pub fn generate(seed: u64, n: usize, _thorough: bool, _corpus: Option<&str>) -> 
     // the whole default path from TEXT on the iteration fragment
     out.extend(text_cases(&mut r, (n / 8).max(20).min(1500)));
     crate::child::shutdown();
+    out
+}
+
+// ======================================================================================================
+// CHAINS: `a implies b implies c`, `a - b - c`, `x / 2 / 5`, `a iff b iff c`, … written WITHOUT parentheses, so that the
+// text means what the documented associativity says (implies groups to the right, everything else to the left).  Each program
+// is kept only if the OTHER grouping would change the answer (brute force over the declared domain, below), so a flipped
+// associativity of any of these operators changes the verdict or the optimum of at least the programs of its kind.
+// (`iff`/`xor`/`and`/`or` are associative on 0/1 values: their chains are generated for the parse path, nothing can separate
+// the groupings semantically.)
+
+use rooc::model_transformer::{Constraint as SrcConstraint, Exp as SrcExp};
+
+fn chain_eval(e: &SrcExp, env: &indexmap::IndexMap<String, f64>) -> Option<f64> {
+    use rooc::{BinOp, UnOp};
+    let t = |x: f64| x != 0.0;
+    let b = |x: bool| if x { 1.0 } else { 0.0 };
+    Some(match e {
+        SrcExp::Number(v) => *v,
+        SrcExp::Variable(n) => *env.get(n)?,
+        SrcExp::Not(x) | SrcExp::UnOp(UnOp::Not, x) => b(!t(chain_eval(x, env)?)),
+        SrcExp::UnOp(UnOp::Neg, x) => -chain_eval(x, env)?,
+        SrcExp::Implies(x, y) => b(!t(chain_eval(x, env)?) || t(chain_eval(y, env)?)),
+        SrcExp::Iff(x, y) => b(t(chain_eval(x, env)?) == t(chain_eval(y, env)?)),
+        SrcExp::Xor(x, y) => b(t(chain_eval(x, env)?) != t(chain_eval(y, env)?)),
+        SrcExp::BinOp(op, x, y) => { let (l, r) = (chain_eval(x, env)?, chain_eval(y, env)?); match op {
+            BinOp::Add => l + r, BinOp::Sub => l - r, BinOp::Mul => l * r, BinOp::Div => if r == 0.0 { return None } else { l / r },
+            BinOp::And => b(t(l) && t(r)), BinOp::Or => b(t(l) || t(r)), BinOp::Xor => b(t(l) != t(r)), BinOp::Implies => b(!t(l) || t(r)), BinOp::Iff => b(t(l) == t(r)) } }
+        _ => return None,
+    })
+}
+
+/// optimum of a tiny model by enumeration: `None` = infeasible, `Some(v)` = optimal value (0 for satisfy)
+fn chain_brute(m: &Model, ds: &[VarDecl]) -> Option<f64> {
+    use rooc::{Comparison, OptimizationType};
+    let doms: Vec<Vec<f64>> = ds.iter().map(|d| match d.ty { VariableType::Boolean => vec![0.0, 1.0], VariableType::IntegerRange(lo, hi) => (lo..=hi).map(|v| v as f64).collect(), _ => vec![0.0] }).collect();
+    let mut idx = vec![0usize; ds.len()];
+    let mut best: Option<f64> = None;
+    loop {
+        let env: indexmap::IndexMap<String, f64> = ds.iter().enumerate().map(|(i, d)| (d.name.clone(), doms[i][idx[i]])).collect();
+        let ok = m.constraints().iter().all(|c| if c.is_logic_assertion() { chain_eval(c.lhs(), &env) == Some(1.0) } else {
+            match (chain_eval(c.lhs(), &env), chain_eval(c.rhs(), &env)) { (Some(l), Some(r)) => match c.constraint_type() {
+                Comparison::LessOrEqual => l <= r + 1e-9, Comparison::GreaterOrEqual => l >= r - 1e-9, Comparison::Equal => (l - r).abs() <= 1e-9, Comparison::Less => l < r, Comparison::Greater => l > r }, _ => false } });
+        if ok { if let Some(v) = chain_eval(&m.objective().rhs, &env) {
+            best = Some(match (best, &m.objective().objective_type) { (None, _) => v, (Some(b), OptimizationType::Min) => b.min(v), (Some(b), OptimizationType::Max) => b.max(v), (Some(b), _) => b }); } }
+        let mut k = 0;
+        loop { if k == ds.len() { return best; } idx[k] += 1; if idx[k] < doms[k].len() { break; } idx[k] = 0; k += 1; }
+    }
+}
+
+pub fn chain_programs(seed: u64, count: usize) -> Vec<Case> {
+    use rooc::{BinOp, Comparison, OptimizationType};
+    let mut r = Rng::new(seed ^ 0x5ca1ab1e_c4a1).fork();
+    let bx = |e: SrcExp| Box::new(e);
+    let mut out = vec![];
+    let mut made = 0usize;
+    let mut attempts = 0usize;
+    while made < count && attempts < count * 60 {
+        attempts += 1;
+        // kind: 0..=5 implies chains (bare / negated / under or / under and / under iff / alias), 6 sub, 7 div, 8 sub+add, 9 iff, 10 xor
+        let kind = match made % 12 { k @ 0..=5 => k, 6 | 7 => 6, 8 => 7, 9 => 8, 10 => 9, _ => 10 };
+        let len = 3 + r.below(2);
+        let logic = kind <= 5 || kind >= 9;
+        let names = ["a", "b", "c", "d"];
+        let (ds, operands, texts): (Vec<VarDecl>, Vec<SrcExp>, Vec<String>) = if logic {
+            let ds: Vec<VarDecl> = names.iter().map(|n| VarDecl { name: n.to_string(), ty: VariableType::Boolean }).collect();
+            let mut os = vec![]; let mut ts = vec![];
+            for _ in 0..len { let hi = 3 + r.below(2); let n = r.pick(&names[..hi]).to_string(); if r.chance(1, 4) {
+                    os.push(SrcExp::Not(bx(SrcExp::Variable(n.clone())))); ts.push(if r.chance(1, 2) { format!("(not {})", n) } else { format!("(!{})", n) });
+                } else { os.push(SrcExp::Variable(n.clone())); ts.push(n); } }
+            (ds, os, ts)
+        } else {
+            let ds: Vec<VarDecl> = names[..3].iter().map(|n| VarDecl { name: n.to_string(), ty: VariableType::IntegerRange(0, 3) }).collect();
+            let mut os = vec![]; let mut ts = vec![];
+            for i in 0..len {
+                let constant = kind == 7 && i > 0 || r.chance(1, 4);
+                if constant { let k = *r.pick(&[2.0, 3.0, 4.0, 5.0]); os.push(SrcExp::Number(k)); ts.push(format!("{}", k as i64)); }
+                else { let n = r.pick(&names[..3]).to_string(); os.push(SrcExp::Variable(n.clone())); ts.push(n); }
+            }
+            (ds, os, ts)
+        };
+        // operator of each link
+        let link = |i: usize, r: &mut Rng| -> (u8, &'static str) { match kind {
+            0..=5 => (0, if kind == 5 || r.chance(1, 3) { "->" } else { "implies" }), 6 => (1, "-"), 7 => (2, "/"),
+            8 => if i % 2 == 0 { (1, "-") } else { (3, "+") }, 9 => (4, if r.chance(1, 3) { "<->" } else { "iff" }), _ => (5, "xor") } };
+        let links: Vec<(u8, &str)> = (0..len - 1).map(|i| link(i, &mut r)).collect();
+        let mk = |op: u8, a: SrcExp, b: SrcExp| match op { 0 => SrcExp::Implies(bx(a), bx(b)), 1 => SrcExp::BinOp(BinOp::Sub, bx(a), bx(b)), 2 => SrcExp::BinOp(BinOp::Div, bx(a), bx(b)),
+            3 => SrcExp::BinOp(BinOp::Add, bx(a), bx(b)), 4 => SrcExp::Iff(bx(a), bx(b)), _ => SrcExp::Xor(bx(a), bx(b)) };
+        let left = |os: &[SrcExp]| { let mut e = os[0].clone(); for i in 1..os.len() { e = mk(links[i - 1].0, e, os[i].clone()); } e };
+        let right = |os: &[SrcExp]| { let mut e = os[os.len() - 1].clone(); for i in (0..os.len() - 1).rev() { e = mk(links[i].0, os[i].clone(), e); } e };
+        let right_assoc = kind <= 5;
+        let (good, bad) = if right_assoc { (right(&operands), left(&operands)) } else { (left(&operands), right(&operands)) };
+        let mut chain_text = texts[0].clone();
+        for i in 1..len { chain_text = format!("{} {} {}", chain_text, links[i - 1].1, texts[i]); }
+        // context
+        let other = "d";
+        let wrap = |e: SrcExp| -> SrcExp { match kind { 1 => SrcExp::Not(bx(e)), 2 => SrcExp::BinOp(BinOp::Or, bx(e), bx(SrcExp::Variable(other.into()))),
+            3 => SrcExp::BinOp(BinOp::And, bx(SrcExp::Variable(other.into())), bx(e)), 4 => SrcExp::Iff(bx(e), bx(SrcExp::Variable(other.into()))), _ => e } };
+        let line = match kind { 1 => format!("not ({})", chain_text), 2 => format!("({}) or {}", chain_text, other), 3 => format!("{} and ({})", other, chain_text),
+            4 => format!("({}) iff {}", chain_text, other), _ => chain_text.clone() };
+        let (cons_good, cons_bad, cons_text): (SrcConstraint, SrcConstraint, String) = if logic {
+            (SrcConstraint::new_logic_assertion(wrap(good.clone()), "chain".into()), SrcConstraint::new_logic_assertion(wrap(bad.clone()), "chain".into()), format!("chain: {}", line))
+        } else {
+            let cmp = *r.pick(&[Comparison::LessOrEqual, Comparison::GreaterOrEqual, Comparison::Equal]);
+            let k = if kind == 7 { *r.pick(&[0.0, 1.0, 2.0]) } else { r.range(-2, 3) as f64 };
+            let ks = if k < 0.0 { format!("(0 - {})", -k as i64) } else { format!("{}", k as i64) };
+            let cs = match cmp { Comparison::LessOrEqual => "<=", Comparison::GreaterOrEqual => ">=", _ => "=" };
+            (SrcConstraint::new(good.clone(), cmp, SrcExp::Number(k), "chain".into()), SrcConstraint::new(bad.clone(), cmp, SrcExp::Number(k), "chain".into()), format!("chain: {} {} {}", line, cs, ks))
+        };
+        // an objective with distinct weights, so that the optimum names the assignment
+        let opt = if r.chance(1, 2) { OptimizationType::Min } else { OptimizationType::Max };
+        let mut obj: Option<SrcExp> = None; let mut obj_text = String::new();
+        for (i, d) in ds.iter().enumerate() {
+            let w = (1u32 << i) as f64;
+            let term = if i == 0 { SrcExp::Variable(d.name.clone()) } else { SrcExp::BinOp(BinOp::Mul, bx(SrcExp::Number(w)), bx(SrcExp::Variable(d.name.clone()))) };
+            obj_text = if i == 0 { d.name.clone() } else { format!("{} + {} * {}", obj_text, w as i64, d.name) };
+            obj = Some(match obj { None => term, Some(o) => SrcExp::BinOp(BinOp::Add, bx(o), bx(term)) });
+        }
+        let obj = obj.unwrap();
+        let m_good = gen_model::build(opt.clone(), obj.clone(), vec![cons_good], &ds);
+        let m_bad = gen_model::build(opt.clone(), obj, vec![cons_bad], &ds);
+        // keep the program only if the other grouping changes the answer (associative connectives cannot)
+        let separable = !(kind >= 9);
+        if separable && chain_brute(&m_good, &ds) == chain_brute(&m_bad, &ds) { continue; }
+        if separable && chain_brute(&m_good, &ds).is_none() && r.chance(2, 3) { continue; }   // prefer feasible programs
+        let decl = if logic { format!("    {} as Boolean", ds.iter().map(|d| d.name.clone()).collect::<Vec<_>>().join(", ")) }
+                   else { format!("    {} as IntegerRange(0, 3)", ds.iter().map(|d| d.name.clone()).collect::<Vec<_>>().join(", ")) };
+        let text = format!("{} {}\ns.t.\n    {}\ndefine\n{}", if matches!(opt, OptimizationType::Min) { "min" } else { "max" }, obj_text, cons_text, decl);
+        let mut c = one(&m_good, &text, "chain");
+        c.tags.push(format!("chain-{}", match kind { 0 => "implies", 1 => "implies-negated", 2 => "implies-under-or", 3 => "implies-under-and", 4 => "implies-under-iff", 5 => "implies-alias", 6 => "sub", 7 => "div", 8 => "sub-add", 9 => "iff", _ => "xor" }));
+        if separable { c.tags.push("chain-separating".into()); }
+        out.push(c);
+        made += 1;
+    }
+    out
+}
+
+// ======================================================================================================
+// NESTED exclusive-or / biconditional: an `xor` / `iff` BELOW an or / implies / negated and, asserted, with the other operands
+// pinned so that the satisfying assignments need the xor to be true (resp. the iff to be false) - the one-directional witness
+// lowering of the linearizer.  Own generator, fixed size.
+
+pub fn nested_logic_programs(seed: u64, count: usize) -> Vec<Case> {
+    use rooc::{BinOp, Comparison, OptimizationType};
+    let mut r = Rng::new(seed ^ 0x0e57ed_10c1c).fork();
+    let bx = |e: SrcExp| Box::new(e);
+    let names = ["a", "b", "c", "d"];
+    let ds: Vec<VarDecl> = names.iter().map(|n| VarDecl { name: n.to_string(), ty: VariableType::Boolean }).collect();
+    let mut out = vec![];
+    for i in 0..count {
+        let v = |r: &mut Rng, n: &str| if r.chance(1, 5) { SrcExp::Not(Box::new(SrcExp::Variable(n.into()))) } else { SrcExp::Variable(n.into()) };
+        let (a, b, c, d) = (v(&mut r, "a"), v(&mut r, "b"), v(&mut r, "c"), v(&mut r, "d"));
+        let xor = SrcExp::Xor(bx(a.clone()), bx(b.clone()));
+        let iff = SrcExp::Iff(bx(a.clone()), bx(b.clone()));
+        let e = match i % 8 {
+            0 => SrcExp::BinOp(BinOp::Or, bx(xor), bx(c.clone())),
+            1 => SrcExp::Implies(bx(iff), bx(c.clone())),
+            2 => SrcExp::Not(bx(SrcExp::BinOp(BinOp::And, bx(iff), bx(c.clone())))),
+            3 => SrcExp::Implies(bx(c.clone()), bx(xor)),
+            4 => SrcExp::BinOp(BinOp::Or, bx(xor), bx(SrcExp::Iff(bx(c.clone()), bx(d.clone())))),
+            5 => SrcExp::Or(vec![c.clone(), xor, d.clone()]),
+            6 => SrcExp::Implies(bx(SrcExp::BinOp(BinOp::And, bx(c.clone()), bx(iff))), bx(d.clone())),
+            _ => SrcExp::BinOp(BinOp::Or, bx(SrcExp::Not(bx(iff))), bx(c.clone())),
+        };
+        let mut cons = vec![SrcConstraint::new_logic_assertion(e, "nested".into())];
+        // pin the other operands so that the xor / iff side has to carry the assertion
+        let pin = |n: &str, val: f64| SrcConstraint::new(SrcExp::Variable(n.into()), Comparison::Equal, SrcExp::Number(val), String::new());
+        match r.below(4) {
+            0 => { cons.push(pin("c", if matches!(c, SrcExp::Not(_)) { 1.0 } else { 0.0 })); }
+            1 => { cons.push(pin("c", if matches!(c, SrcExp::Not(_)) { 1.0 } else { 0.0 })); cons.push(pin("d", if matches!(d, SrcExp::Not(_)) { 1.0 } else { 0.0 })); }
+            2 => { cons.push(pin("a", 1.0)); cons.push(pin("b", 1.0)); }
+            _ => {}
+        }
+        let opt = if r.chance(1, 2) { OptimizationType::Min } else { OptimizationType::Max };
+        let mut obj = SrcExp::Variable("a".into());
+        for (k, n) in names.iter().enumerate().skip(1) { obj = SrcExp::BinOp(BinOp::Add, bx(obj), bx(SrcExp::BinOp(BinOp::Mul, bx(SrcExp::Number((1u32 << k) as f64)), bx(SrcExp::Variable(n.to_string()))))); }
+        let m = gen_model::build(opt, obj, cons, &ds);
+        let mut pr = r.fork();
+        let text = Printer { r: &mut pr, sp: Spelling { aliases: r.chance(1, 2), implicit_mul: false, redundant_parens: false, named_consts: false, minimal_parens: r.chance(1, 2) }, consts: vec![] }.program(&m);
+        let mut c = one(&m, &text, "nested-logic");
+        c.tags.push(format!("nested-logic-{}", i % 8));
+        out.push(c);
+    }
     out
 }
